@@ -14,7 +14,7 @@ HIST = ("C10", "C11")
 NWORKERS = int(os.environ.get("VERIF_WORKERS", "16"))
 
 BUDGETS = {  # seconds of exploration per tier (VERIF_BUDGET_S overrides)
-    "quick": {"C01": 60, "C03": 55, "C07": 60, "C10": 40, "C11": 60},
+    "quick": {"C01": 60, "C03": 55, "C07": 60, "C10": 30, "C11": 60},
     "thorough": {"C01": 900, "C03": 900, "C07": 900, "C10": 900, "C11": 900},
 }
 
